@@ -87,7 +87,7 @@ func verifRingOp(b *Buffer, closed *bool, f []string) (out string) {
 			return "block" + verifOcc(b) // a Read would block: not issued
 		}
 		// a Read that finds nothing although Count() > 0 must not hang the harness
-		_ = b.SetReadDeadline(time.Now().Add(3 * time.Second))
+		_ = b.SetReadDeadline(time.Now().Add(300 * time.Millisecond))
 		n, err := b.Read(dst)
 		_ = b.SetReadDeadline(time.Time{})
 		var ne interface{ Timeout() bool }
@@ -139,8 +139,14 @@ func (g *verifRingGen) do(op string) {
 	}
 	f := splitFields(op)
 	out := verifRingOp(g.b, &g.closed, f)
+	if strings.HasPrefix(out, "panic") {
+		// the buffer panicked while holding its mutex: it must not be touched again
+		g.dead = true
+		g.o.Op(op, out, "-")
+		return
+	}
 	g.o.Op(op, out, verifRingSt(g.b))
-	if strings.HasPrefix(out, "panic") || strings.HasPrefix(out, "stuck") {
+	if strings.HasPrefix(out, "stuck") {
 		g.dead = true
 	}
 }
@@ -180,6 +186,9 @@ func (g *verifRingGen) write(n int) {
 
 // room to the end of the ring from the tail (white box), or a guess
 func (g *verifRingGen) toEnd() int {
+	if g.dead {
+		return 0
+	}
 	if verifRingGeom == nil {
 		return 2048 - g.b.Size()%2048
 	}
@@ -190,8 +199,23 @@ func (g *verifRingGen) toEnd() int {
 	return l - t
 }
 
+// cnt and sz never touch a buffer that panicked (its mutex is still held)
+func (g *verifRingGen) cnt() int {
+	if g.dead {
+		return 0
+	}
+	return g.b.Count()
+}
+
+func (g *verifRingGen) sz() int {
+	if g.dead {
+		return 0
+	}
+	return g.b.Size()
+}
+
 func (g *verifRingGen) readSome(k int) {
-	for i := 0; i < k && !g.dead && g.b.Count() > 0; i++ {
+	for i := 0; i < k && g.cnt() > 0; i++ {
 		switch g.r.Intn(8) {
 		case 0:
 			g.do("r 0")
@@ -234,7 +258,7 @@ func verifRingCase(r *vh.Rng, o *vh.Out, id string, hard bool, thorough bool) {
 				}
 				g.write(n)
 			case c < 85:
-				if b.Count() > 0 {
+				if g.cnt() > 0 {
 					// destination lengths around the packet length: 0, len-1, len, len+1 are hit by small packets
 					g.do(fmt.Sprintf("r %d", r.Pick(0, 1, 2, 3, 5, 100, 600, 3000, 70000)))
 				} else {
@@ -260,7 +284,7 @@ func verifRingCase(r *vh.Rng, o *vh.Out, id string, hard bool, thorough bool) {
 		g.readSome(r.Intn(pre + 1))
 		target := r.Pick(1, 2, 3, 4, 5, 6, 7) // number of growth steps to cross
 		sz := r.Pick(10, 100, 700, 1500, 5000, 20000, 65535)
-		for !g.dead && b.Size() < 2048<<uint(target) && b.Count() < 400 {
+		for !g.dead && g.sz() < 2048<<uint(target) && g.cnt() < 400 {
 			g.write(sz + r.Intn(9) - 4)
 			if r.Chance(15) {
 				g.readSome(1 + r.Intn(3))
@@ -274,7 +298,7 @@ func verifRingCase(r *vh.Rng, o *vh.Out, id string, hard bool, thorough bool) {
 		if r.Chance(50) {
 			g.do("close")
 		}
-		for !g.dead && b.Count() > 0 {
+		for !g.dead && g.cnt() > 0 {
 			g.readSome(50)
 			g.nops++
 		}
@@ -293,7 +317,7 @@ func verifRingCase(r *vh.Rng, o *vh.Out, id string, hard bool, thorough bool) {
 		g.do(fmt.Sprintf("ls %d", lim))
 		steps := 30 + r.Intn(60)
 		for i := 0; i < steps; i++ {
-			room := lim - b.Size() - 2
+			room := lim - g.sz() - 2
 			switch c := r.Intn(100); {
 			case c < 35:
 				g.write(room + r.Intn(5) - 2)
@@ -339,13 +363,13 @@ func verifRingCase(r *vh.Rng, o *vh.Out, id string, hard bool, thorough bool) {
 			g.write(r.Intn(3000))
 		}
 		g.readSome(r.Intn(pre + 1))
-		for !g.dead && capv-1-b.Size() > 70000 {
+		for !g.dead && capv-1-g.sz() > 70000 {
 			g.write(r.Pick(65535, 65000, 64000, 65535, 65535))
 		}
 		for i := 0; i < 12; i++ {
-			room := capv - 1 - b.Size() - 2
+			room := capv - 1 - g.sz() - 2
 			if big > 0 && !hard {
-				room = big - b.Size() - 2
+				room = big - g.sz() - 2
 			}
 			g.write(room + r.Intn(5) - 2)
 			if r.Chance(40) {
@@ -375,12 +399,23 @@ func TestVerifRing(t *testing.T) {
 			o.Case(c.ID, h)
 			b := NewBuffer()
 			closed := false
+			dead := false
 			for _, f := range c.Ops {
 				op := f[0]
 				for _, x := range f[1:] {
 					op += " " + x
 				}
-				o.Op(op, verifRingOp(b, &closed, f), verifRingSt(b))
+				if dead {
+					o.Op(op, "skipped", "-")
+					continue
+				}
+				out := verifRingOp(b, &closed, f)
+				if strings.HasPrefix(out, "panic") {
+					dead = true
+					o.Op(op, out, "-")
+					continue
+				}
+				o.Op(op, out, verifRingSt(b))
 			}
 		}
 	})
